@@ -350,6 +350,14 @@ class ExprMixin:
             if fb is None:
                 return T.lt(self.ALLOC0, x), None
             return T.and_(T.lt(fb[0], x), T.le(x, fb[1])), None
+        if name == 'visited':
+            # visited(m, k): key k has been produced by the range loop over map m that is in progress
+            m, tn = self.eval(args[0], env)
+            key = self.eval_int(args[1], env)
+            cands = [cid for cid, mm in self.rangevis.items() if mm == m and cid in env.state.cells]
+            if not cands:
+                raise Unsupported('visited(): no range loop over that map is in progress')
+            return T.select(env.state.cells[cands[-1]], key), None
         if name == 'indom':
             m, tn = self.eval(args[0], env)
             key = self.eval_int(args[1], env)
